@@ -95,6 +95,9 @@ def print_str_args(rule, args, th):
     def str_val(val):
         if isinstance(val, Inst) or isinstance(val, TyInst):
             items = sorted(val.items(), key = lambda pair: pair[0])
+            if isinstance(val, Inst):
+                # The type part of an instantiation is written 'a: T
+                items = [("'" + key, T) for key, T in sorted(val.tyinst.items())] + items
             return pprint.N('{') + commas_join(pprint.N(key + ': ') + str_val(val)
                                                for key, val in items) + pprint.N('}')
         elif isinstance(val, Term):
